@@ -94,33 +94,57 @@ class C08(F.PropCheck):
             boot = (W32 - max(0, w)) % W32; tags.append('boot:zero-stamp-aimed')
         return F.Case(cid, [('CFG', [boot, n, late, 0], b'')] + evs, tags)
 
-    def gen_sys(self, rng, cid, tier, boot=None):
-        n = rng.choice([1, 1, 2, 3, 4])
-        btn = rng.choice([0, 2, 2, 4])
+    def gen_sys(self, rng, cid, tier, boot=None, legacy_buttons=False):
+        n = rng.choice([1, 1, 2, 3, 4, 4])
+        btn = rng.choice([0, 2, 2, 4, 4])
         bflags = rng.choice([0, 0x10]) if btn == 2 else 0
         mmode = rng.choice([0, 0, 0, 1, 2]); up_ms = rng.choice([1500, 3000, 8000]); down_ms = rng.choice([1500, 3000, 8000])
         rsflags = rng.choice([0, 0, 0x1000]); t1 = rng.choice([0, 2000, 5000]); t2 = t1 if rng.random() < 0.7 else rng.choice([0, 2000, 5000])
+        # which relays have a button: INPUT_MAX_COUNT = 7 < 8 relays of a full board, so the pairs go to three shutters chosen by
+        # a mask (the last shutter — relay table slots 6 and 7 — is in the mask in most 4-shutter cases) + one single extra button
+        mask = 0; extra = 0; pins = {}
+        if btn:
+            if n == 4 and not legacy_buttons:
+                mask = rng.choice([0b1110, 0b1110, 0b1101, 0b1011, 0b0111])
+                missing = [i for i in range(4) if not mask >> i & 1][0]
+                extra = 1 + 2 * missing + rng.randrange(2) if rng.random() < 0.7 else 0
+            else: mask = (1 << min(n, 3)) - 1
+            k = 0
+            for i in range(n):
+                if mask >> i & 1 and k < 3: pins[(i, 0)] = 9 + 2 * k; pins[(i, 1)] = 10 + 2 * k; k += 1
+            if extra: pins[((extra - 1) // 2, (extra - 1) % 2)] = 15
         tags = ['sys', 'n%d' % n, 'btn%d' % btn, 'motor%d' % mmode, 'autocal' if rsflags else 'manual', 'calibrated' if t1 else 'uncalibrated']
+        if n == 4 and ((3, 0) in pins or (3, 1) in pins): tags.append('button-on-last-slots')
         # espconn_connect happens 200 ms after boot; the register call leaves at 500 ms; the first watchdog tick is at 1 s
         evs = [('ADV', [300000], b''), ('CONNCB', [], b''), ('ADV', [300000], b''), ('REGOK', [rng.choice([30, 30, 10])], b''), ('ADV', [rng.choice([100000, 600000, 1100000])], b'')]
         t_est = 600000 + evs[-1][1][0]; rr = 2; marks = []
         L = rng.choice([6, 10, 16, 24])
         pressed = {}
+        def press(p, hold):
+            nonlocal t_est
+            lvl = 0 if pressed.get(p) else 1
+            evs.append(('IN', [p, lvl], b'')); pressed[p] = lvl
+            evs.append(('ADV', [hold], b'')); t_est += hold; marks.append(t_est)
+            if btn == 2 or rng.random() < 0.5:
+                evs.append(('IN', [p, 1 - lvl], b'')); pressed[p] = 1 - lvl
+                evs.append(('ADV', [150000], b'')); t_est += 150000; marks.append(t_est)
         for _ in range(L):
-            k = rng.random(); i = rng.randrange(n)
-            if k < 0.40:
+            k = rng.random(); i = rng.randrange(n) if rng.random() < 0.7 else n - 1
+            if k < 0.12 and pins:
+                # one output is driven (server command or button), then the button of the OPPOSITE output is used while it is on
+                (j, w) = rng.choice(sorted(pins))
+                if rng.random() < 0.6 or (j, 1 - w) not in pins:
+                    evs.append(('SRV', [CALL_SET_VALUE, rr], set_value(j, 2 if w == 1 else 1))); rr += 1
+                else: press(pins[(j, 1 - w)], 150000)
+                dt = rng.choice([1150000, 1500000, 2200000]); evs.append(('ADV', [dt], b'')); t_est += dt; marks.append(t_est)
+                press(pins[(j, w)], rng.choice([150000, 300000, 1300000]))
+            elif k < 0.40:
                 v = rng.choice([0, 1, 2, 3, 4, 5, 0, 1, 2, rng.randrange(10, 111), 255, rng.choice([6, 9, 111, 200])])
                 evs.append(('SRV', [CALL_SET_VALUE, rr], set_value(i, v, tilt=rng.choice([0, 255, rng.randrange(10, 111)])))); rr += 1
                 marks.append(t_est)
-            elif k < 0.55 and btn and i < 3:
-                w = rng.randrange(2); p = btn_pin(i, w)
-                lvl = 0 if pressed.get(p) else 1
-                evs.append(('IN', [p, lvl], b'')); pressed[p] = lvl
-                hold = rng.choice([30000, 150000, 150000, 300000, 700000, 1300000])
-                evs.append(('ADV', [hold], b'')); t_est += hold; marks.append(t_est)
-                if btn == 2 or rng.random() < 0.5:
-                    evs.append(('IN', [p, 1 - lvl], b'')); pressed[p] = 1 - lvl
-                    evs.append(('ADV', [150000], b'')); t_est += 150000; marks.append(t_est)
+            elif k < 0.55 and pins:
+                cand = [q for q in sorted(pins) if q[0] == i] or sorted(pins)
+                press(pins[rng.choice(cand)], rng.choice([30000, 150000, 150000, 300000, 700000, 1300000]))
             elif k < 0.60:
                 evs.append(('SRV', [CALL_CALCFG, rr], calcfg_recalibrate(i, rng.choice([1, 1, 0])))); rr += 1
             elif k < 0.70:
@@ -141,7 +165,7 @@ class C08(F.PropCheck):
             else:
                 w = (rng.randrange(200000, max(200001, t_est)) if rng.random() < 0.5 or not marks else max(200000, rng.choice(marks) + rng.choice([5, 3337, 60011, 120013, 500017, 950003]))) | 1
                 boot = (W32 - w) % W32; tags.append('boot:wrap-inside')
-        cfg = [boot, n, 0, 1, btn, bflags, mmode, up_ms, down_ms, rng.choice([0, 300]), rsflags, t1, t2, 0]
+        cfg = [boot, n, 0, 1, btn, bflags, mmode, up_ms, down_ms, rng.choice([0, 300]), rsflags, t1, t2, 0, mask if n == 4 and not legacy_buttons else 0, extra]
         return F.Case(cid, [('CFG', cfg, b'')] + evs, tags)
 
     def gen_cases(self, rng, n, tier):
